@@ -69,6 +69,7 @@ type svc struct {
 	failed   int // log entries "Failed to reload server credentials"
 	cond     *sync.Cond
 	prev     map[string][]byte // the set at the previous comparison
+	tcp, udp bool              // which transports the managed server has
 }
 
 func freePort(t *testing.T) int {
@@ -91,11 +92,11 @@ func freePort(t *testing.T) int {
 // shared machine can take one in between: a service that does not come up is torn down and
 // retried on fresh ports. If it never comes up the test is skipped (the stage then lacks its
 // required label and the run is inconclusive, not a violation).
-func startSvc(t *testing.T, kl int, dir string, initial map[string][]byte) *svc {
+func startSvc(t *testing.T, kl int, transports string, dir string, initial map[string][]byte) *svc {
 	var err error
 	for attempt := 0; attempt < 5; attempt++ {
 		var s *svc
-		if s, err = startSvcOnce(t, kl, dir, initial); err == nil {
+		if s, err = startSvcOnce(t, kl, transports, dir, initial); err == nil {
 			return s
 		}
 		t.Logf("HARNESS: service start attempt %d: %v", attempt, err)
@@ -104,7 +105,7 @@ func startSvc(t *testing.T, kl int, dir string, initial map[string][]byte) *svc 
 	return nil
 }
 
-func startSvcOnce(t *testing.T, kl int, dir string, initial map[string][]byte) (*svc, error) {
+func startSvcOnce(t *testing.T, kl int, transports string, dir string, initial map[string][]byte) (*svc, error) {
 	s := &svc{kl: kl, path: filepath.Join(dir, "upsks.json"), done: make(chan bool, 1)}
 	s.cond = sync.NewCond(&s.mu)
 	if err := writeAtomically(s.path, credx.EncodeStore(initial, true)); err != nil {
@@ -138,13 +139,22 @@ func startSvcOnce(t *testing.T, kl int, dir string, initial map[string][]byte) (
 	}()
 	s.port, s.apiPort = freePort(t), freePort(t)
 	proto := map[int]string{16: "2022-blake3-aes-128-gcm", 32: "2022-blake3-aes-256-gcm"}[kl]
+	// transport class of the managed server: both listeners, or only one of them (the other
+	// transport is then disabled: the credential manager gets no store for it)
+	s.tcp, s.udp = transports != "udp-only", transports != "tcp-only"
+	listeners := ""
+	if s.tcp {
+		listeners += fmt.Sprintf(`"tcpListeners":[{"network":"tcp","address":"127.0.0.1:%d"}],`, s.port)
+	}
+	if s.udp {
+		listeners += fmt.Sprintf(`"udpListeners":[{"network":"udp","address":"127.0.0.1:%d"}],`, s.port)
+	}
 	cfgJSON := fmt.Sprintf(`{
 	 "servers":[{"name":"ss","protocol":%q,
-	   "tcpListeners":[{"network":"tcp","address":"127.0.0.1:%d"}],
-	   "udpListeners":[{"network":"udp","address":"127.0.0.1:%d"}],
+	   %s
 	   "mtu":1500,"psk":%q,"uPSKStorePath":%q}],
 	 "api":{"enabled":true,"listeners":[{"network":"tcp","address":"127.0.0.1:%d"}]}
-	}`, proto, s.port, s.port, base64.StdEncoding.EncodeToString(credx.IPSK(kl)), s.path, s.apiPort)
+	}`, proto, listeners, base64.StdEncoding.EncodeToString(credx.IPSK(kl)), s.path, s.apiPort)
 	var cfg service.Config
 	if err := json.Unmarshal([]byte(cfgJSON), &cfg); err != nil {
 		return nil, err
@@ -388,13 +398,16 @@ func (s *svc) checkViews(model map[string][]byte, where string) string {
 				continue
 			}
 		}
-		got, why := s.tcpAccepts(key, want)
-		if got != want {
-			return fmt.Sprintf("SIG=C08/service/tcp-acceptance %s: client with k%d accepted=%v, expected %v (%s); set %s", where, i, got, want, why, credx.Show(model, kl))
+		if s.tcp {
+			if got, why := s.tcpAccepts(key, want); got != want {
+				return fmt.Sprintf("SIG=C08/service/tcp-acceptance %s: client with k%d accepted=%v, expected %v (%s); set %s", where, i, got, want, why, credx.Show(model, kl))
+			}
 		}
-		got, why = s.udpAccepts(key, want)
-		if got != want {
-			return fmt.Sprintf("SIG=C08/service/udp-acceptance %s: client with k%d accepted=%v, expected %v (%s); set %s", where, i, got, want, why, credx.Show(model, kl))
+		if s.udp {
+			// a full round trip: client packet -> server -> echo target -> server packs the reply -> client unpacks
+			if got, why := s.udpAccepts(key, want); got != want {
+				return fmt.Sprintf("SIG=C08/service/udp-acceptance %s: client with k%d round trip=%v, expected %v (%s); set %s", where, i, got, want, why, credx.Show(model, kl))
+			}
 		}
 	}
 	return ""
@@ -405,10 +418,12 @@ type svcStep struct {
 }
 
 type svcPlan struct {
-	KeyLen  int            `json:"key_len"`
-	Initial map[string]int `json:"initial"`
-	Steps   []svcStep      `json:"steps"`
-	APIAdd  bool           `json:"api_add"` // finish with POST users over HTTP and wait for the debounce save
+	KeyLen     int            `json:"key_len"`
+	Initial    map[string]int `json:"initial"`
+	Steps      []svcStep      `json:"steps"`
+	APIAdd     bool           `json:"api_add"`              // finish with POST users over HTTP (+ PATCH of another user) and data-path round trips
+	WaitSave   bool           `json:"wait_save"`            // ... and wait for the debounce save
+	Transports string         `json:"transports,omitempty"` // "tcp+udp" (default), "tcp-only", "udp-only"
 }
 
 var recSvc = ev.New("C08", "service-sigusr1",
@@ -450,7 +465,9 @@ func TestServiceSIGUSR1(t *testing.T) {
 	for i := 0; i < n; i++ {
 		p := gen.Example(seed*1000 + i)
 		p.KeyLen = []int{16, 32}[i%2]
-		p.APIAdd = i == 0
+		p.APIAdd = true
+		p.WaitSave = i == 0
+		p.Transports = []string{"udp-only", "tcp-only", "tcp+udp"}[(i+seed)%3]
 		// make sure the first step is a set-changing valid edit so every case is non-trivial
 		p.Steps[0].File = fileSpec{Users: map[string]int{"alice": (p.Initial["alice"] + 1) % nKeys, "dave": (p.Initial["alice"] + 2) % nKeys}}
 		if v := runSvcPlan(t, p); v != "" {
@@ -468,7 +485,7 @@ func runSvcPlan(t *testing.T, p svcPlan) string {
 	}
 	defer os.RemoveAll(dir)
 	model := usersOf(kl, p.Initial)
-	s := startSvc(t, kl, dir, model)
+	s := startSvc(t, kl, p.Transports, dir, model)
 	defer s.stop()
 	if v := s.checkViews(model, "after start"); v != "" {
 		return v
@@ -530,10 +547,44 @@ func runSvcPlan(t *testing.T, p svcPlan) string {
 			if v := s.checkViews(model, "after POST users over HTTP"); v != "" {
 				return v
 			}
+			trace = append(trace, "api-added-user-round-trip")
+			// rotate the key of another user through PATCH, too
+			for other := range model {
+				if other == name {
+					continue
+				}
+				free := -1
+				for k := 0; k < nKeys; k++ {
+					used := false
+					for _, mk := range model {
+						used = used || bytes.Equal(mk, credx.Key(kl, k))
+					}
+					if !used {
+						free = k
+					}
+				}
+				if free < 0 {
+					break
+				}
+				code, body, err := s.api("PATCH", "/servers/ss/users/"+other, map[string]any{"uPSK": credx.Key(kl, free)})
+				if err != nil || !accepted(code) {
+					return fmt.Sprintf("SIG=C08/service/status-mismatch/update PATCH users/%s -> %d %s %v", other, code, body, err)
+				}
+				model[other] = credx.Key(kl, free)
+				if v := s.checkViews(model, "after PATCH users/"+other+" over HTTP"); v != "" {
+					return v
+				}
+				trace = append(trace, "api-updated-user-round-trip")
+				break
+			}
 			// bounded liveness: save due after 5 s; allow 25 s
 			deadline := time.Now().Add(25 * time.Second)
-			time.Sleep(5100 * time.Millisecond)
-			for {
+			if !p.WaitSave {
+				deadline = time.Time{}
+			} else {
+				time.Sleep(5100 * time.Millisecond)
+			}
+			for p.WaitSave {
 				b, _ := os.ReadFile(s.path)
 				got, complete, derr := credx.DecodeStore(b, kl)
 				if derr == nil && complete && credx.SameUsers(got, model) {
@@ -544,17 +595,28 @@ func runSvcPlan(t *testing.T, p svcPlan) string {
 				}
 				time.Sleep(250 * time.Millisecond)
 			}
-			trace = append(trace, "api-add-saved")
+			if p.WaitSave {
+				trace = append(trace, "api-add-saved")
+			}
 		}
 	}
-	labels := []string{fmt.Sprintf("keylen/%d", kl)}
+	tr := p.Transports
+	if tr == "" {
+		tr = "tcp+udp"
+	}
+	labels := []string{fmt.Sprintf("keylen/%d", kl), "service-transports/" + tr}
+	for _, e := range trace {
+		if strings.HasSuffix(e, "-round-trip") {
+			labels = append(labels, tr+"-service/"+e)
+		}
+	}
 	if changed {
 		labels = append(labels, "sigusr1-changed-set")
 	}
 	if strings.Contains(strings.Join(trace, ","), "refused") {
 		labels = append(labels, "sigusr1-invalid-refused")
 	}
-	recSvc.Case(fmt.Sprintf("%d/%s", kl, strings.Join(trace, ",")), changed, labels...)
+	recSvc.Case(fmt.Sprintf("%d/%s/%s", kl, tr, strings.Join(trace, ",")), changed, labels...)
 	if changed {
 		recSvc.Sample(map[string]any{"plan": p, "trace": trace})
 	}
